@@ -24,6 +24,18 @@ CHECKS = {
         note=TB + " C01: 'derivative' means the standard derivative recurrence dB; its identification with the analytic derivative "
                   "(Coquelicot) is in Spec files where proved. unsigned wrap-around of C indices is excluded by the proved bounds, not modelled.",
         design='DESIGN.md section 8, C01'),
+    'C02': dict(
+        engine='objdiff',
+        technique='Coq proof (tensor-product evaluation: convex weights, bounding box, ValueError iff outside, periodic wrap, Greville identity) + Paramcoq transfer + differential run of extracted model vs evaluate() in all calling forms',
+        text=("Theorems in Properties/C02.v for every object/pardim/parameter: curve evaluation is the defining sum; every row used by evaluate() is a "
+              "vector of convex weights at every validated parameter (from C01); validate raises ValueError exactly when a non-periodic direction is left; "
+              "periodic directions wrap by the period (interior parameters); Greville control points give the identity curve; every evaluated point of a "
+              "non-rational object lies in the box of its control points; executed Q instance = proved R instance. Correspondence: grid / scalar / "
+              "tensor=False / __call__ forms against the extracted model (L1) and against the tensor-product definition assembled from reference rows (L2); "
+              "default objects are checked to be the identity and bounding_box() to contain evaluated points on the implementation."),
+        note=TB + " C02: numpy tensordot/einsum are modelled by the recursive contraction teval (not verified); the default-control-point constructor path "
+                  "(itertools.product + reshape order F) is covered by the implementation-side identity probe, the theorem covers curves (tensor case: separable argument not yet formalised).",
+        design='DESIGN.md section 8, C02'),
 }
 
 PENDING_REASON = "not claimed in this revision: model/theorems for this property are still being built (see DESIGN.md section 8 for the plan)"
